@@ -49,13 +49,45 @@ const (
 	stNoStdio
 	stStdinMoved
 	stStdinReplaced
+	// many simultaneously open descriptors (stdio + pre-open + path_open of
+	// files and directories): around the 64- and 128-descriptor block
+	// boundaries of the table, and a table with a hole across the first boundary
+	stMany63
+	stMany64
+	stMany65
+	stMany127
+	stMany128
+	stMany129
+	stGap64 // 70 open, then 60..66 closed
 	nStates
 )
+
+// manyOpen is the number of simultaneously open descriptors a state builds (0 = not a many-open state).
+func manyOpen(state int) int {
+	switch state {
+	case stMany63:
+		return 63
+	case stMany64:
+		return 64
+	case stMany65:
+		return 65
+	case stMany127:
+		return 127
+	case stMany128:
+		return 128
+	case stMany129:
+		return 129
+	case stGap64:
+		return 70
+	}
+	return 0
+}
 
 const nBaseStates = stClosedPre + 1
 
 var stateNames = []string{"fresh", "open", "renumbered", "closed", "closed-preopen",
-	"stdin-closed", "stdout-closed", "stderr-closed", "stdio-closed", "stdin-renumbered-away", "stdin-replaced-by-file"}
+	"stdin-closed", "stdout-closed", "stderr-closed", "stdio-closed", "stdin-renumbered-away", "stdin-replaced-by-file",
+	"63-open", "64-open", "65-open", "127-open", "128-open", "129-open", "70-open-then-60..66-closed"}
 
 const (
 	mtDir = iota
@@ -128,8 +160,9 @@ type caseResult struct {
 	MaxSys       uint64         `json:"max_sys"`
 	SysSuspects  int            `json:"sys_suspects,omitempty"`
 	Reinst       int            `json:"reinst"`
-	Structured   int            `json:"structured,omitempty"` // calls with generator-built input arrays
-	Setup        string         `json:"setup,omitempty"`      // non-empty: set-up problem (inconclusive)
+	Structured   int            `json:"structured,omitempty"`  // calls with generator-built input arrays
+	BuildOpens   int            `json:"build_opens,omitempty"` // descriptors handed out during state build-ups (each judged)
+	Setup        string         `json:"setup,omitempty"`       // non-empty: set-up problem (inconclusive)
 	List         []callSpec     `json:"list,omitempty"`
 	Sample       string         `json:"sample,omitempty"`
 }
@@ -210,6 +243,7 @@ type fdInfo struct {
 	Size    uint64 `json:"size"`
 	Head    string `json:"head,omitempty"`
 	Preopen bool   `json:"preopen,omitempty"`
+	stale   bool   // size/content may have changed legitimately since the last probe
 }
 
 func (i fdInfo) class(fd int32) string {
@@ -236,6 +270,7 @@ type inst struct {
 	peers  []net.Conn
 	hist   []callSpec
 	closed bool
+	judge  func(name string, args []uint64, err error)
 }
 
 type runner struct {
@@ -321,6 +356,9 @@ func (in *inst) fn(name string) api.Function {
 func (in *inst) wcall(name string, args ...uint64) uint32 {
 	res, err := in.fn(name).Call(bgCtx, args...)
 	if err != nil || len(res) == 0 {
+		if err != nil && in.judge != nil {
+			in.judge(name, args, err) // the monitors' own calls are judged too
+		}
 		return 0xffff
 	}
 	return uint32(res[0])
@@ -329,24 +367,51 @@ func (in *inst) wcall(name string, args ...uint64) uint32 {
 func (in *inst) u32(off uint32) uint32 { v, _ := in.mem.ReadUint32Le(off); return v }
 func (in *inst) u64(off uint32) uint64 { v, _ := in.mem.ReadUint64Le(off); return v }
 
-func (in *inst) close() {
+func (in *inst) close() (panicked any, stack []byte) {
 	for _, p := range in.peers {
 		p.Close()
 	}
 	in.peers = nil
 	if in.mod != nil {
+		defer func() {
+			if p := recover(); p != nil {
+				panicked, stack = p, debug.Stack()
+			}
+		}()
 		in.mod.Close(bgCtx)
 	}
+	return
 }
+
+// endInstance finishes the current instance: in many-descriptor states every
+// tracked descriptor is verified once more (per call only a window is), and
+// closing the module is judged like a call: it must not panic.
+func (r *runner) endInstance() {
+	in := r.in
+	if in == nil {
+		return
+	}
+	if !in.closed && len(in.shadow) > bigTable {
+		r.shadowCheck(historyEnd, nil, 1, true)
+	}
+	if p, stack := in.close(); p != nil {
+		text := fmt.Sprintf("%v (panic in Module.Close)\n%s", p, stack)
+		kind, frame := runtimeErrorCause(text)
+		r.addFindingAt("module_close:"+kind+"@"+frame+":go-runtime-error", core.Trunc(text, 1500),
+			callSpec{Fn: "sched_yield", Args: []uint64{}}, "Module.Close after the history", in.hist, map[string]any{"state": stateNames[r.cs.State]})
+	}
+	r.in = nil
+}
+
+const bigTable = 24
+
+var historyEnd = &fnSpec{name: "history-end"}
 
 // instantiate creates a fresh instance in the case's configuration and brings
 // its descriptor table into the case's state.
 func (r *runner) instantiate() error {
 	cs := r.cs
-	if r.in != nil {
-		r.in.close()
-		r.in = nil
-	}
+	r.endInstance()
 	if r.dirty {
 		// hostile path_* calls of the previous chunk changed the host tree
 		os.RemoveAll(r.dir)
@@ -389,6 +454,15 @@ func (r *runner) instantiate() error {
 	r.in = in
 	r.res.Reinst++
 	in.mem.Write(0, r.tmpl)
+	in.judge = func(name string, args []uint64, err error) {
+		text := err.Error()
+		if f := tableByName[name]; f != nil && strings.Contains(text, "recovered by wazero") {
+			kind, frame := runtimeErrorCause(text)
+			r.addFindingAt(name+":"+kind+"@"+frame+":go-runtime-error", core.Trunc(text, 1500), callSpec{Fn: name, Args: append([]uint64(nil), args...)},
+				fmtArgs(f, pnames[name], args)+" (issued by the state build-up / shadow-table probe)", in.hist,
+				map[string]any{"during": "state build-up or shadow-table probe", "state": stateNames[cs.State]})
+		}
+	}
 
 	// descriptor-table state
 	writable := cs.Mount == mtDir || cs.Mount == mtSock
@@ -401,23 +475,61 @@ func (r *runner) instantiate() error {
 		next = 5
 	}
 	var problems []string
+	// the build-up itself is judged: a new descriptor must not name an open one
+	openSet := map[uint64]bool{0: true, 1: true, 2: true, 3: true}
+	if cs.Mount == mtSock {
+		openSet[4] = true
+	}
+	const anyFd = ^uint64(0)
+	handedOut := func(name string, args []uint64, got uint64) {
+		if openSet[got] {
+			f := tableByName[name]
+			r.addFindingAt(name+":fdtable:returned-open-descriptor",
+				fmt.Sprintf("while building state %s: %s returned descriptor %d, which is open (%d descriptors open)", stateNames[cs.State], fmtArgs(f, pnames[name], args), got, len(openSet)),
+				callSpec{Fn: name, Args: args}, fmtArgs(f, pnames[name], args)+" (state build-up)", in.hist,
+				map[string]any{"returned": got, "open_descriptors": len(openSet), "state": stateNames[cs.State]})
+		}
+		openSet[got] = true
+		r.res.BuildOpens++
+	}
 	open := func(p uint64, plen uint64, oflags, fdflags uint64, want uint64) {
 		rt := rights
 		if oflags&2 != 0 {
 			rt = 0
 		}
-		if errno := in.wcall("path_open", 3, 1, p, plen, oflags, rt, rt, fdflags, aScratch); errno != 0 {
+		args := []uint64{3, 1, p, plen, oflags, rt, rt, fdflags, aScratch}
+		if errno := in.wcall("path_open", args...); errno != 0 {
 			problems = append(problems, fmt.Sprintf("path_open(%#x)=%s", p, wasip1.ErrnoName(errno)))
-		} else if got := uint64(in.u32(aScratch)); got != want {
-			problems = append(problems, fmt.Sprintf("path_open(%#x) gave fd %d, expected %d", p, got, want))
+		} else {
+			got := uint64(in.u32(aScratch))
+			handedOut("path_open", args, got)
+			if want != anyFd && got != want {
+				problems = append(problems, fmt.Sprintf("path_open(%#x) gave fd %d, expected %d", p, got, want))
+			}
 		}
+	}
+	closeFd := func(fd uint64) {
+		if errno := in.wcall("fd_close", fd); errno != 0 {
+			problems = append(problems, fmt.Sprintf("fd_close(%d)=%s", fd, wasip1.ErrnoName(errno)))
+		}
+		delete(openSet, fd)
 	}
 	must := func(name string, args ...uint64) {
 		if errno := in.wcall(name, args...); errno != 0 {
 			problems = append(problems, fmt.Sprintf("%s%v=%s", name, args, wasip1.ErrnoName(errno)))
 		}
 	}
-	if cs.State != stFresh {
+	if n := manyOpen(cs.State); n > 0 {
+		kinds := [][3]uint64{{aF0, 2, 0}, {aD0F1, 2, 2}, {aD0F1, 5, 0}, {aE0, 2, 2}}
+		for k := 0; len(openSet) < n && k < 200; k++ {
+			open(kinds[k%4][0], kinds[k%4][1], kinds[k%4][2], 0, anyFd)
+		}
+		if cs.State == stGap64 {
+			for fd := uint64(60); fd <= 66; fd++ {
+				closeFd(fd)
+			}
+		}
+	} else if cs.State != stFresh {
 		open(aF0, 2, 0, 0, next)     // X1 regular file
 		open(aD0F1, 2, 2, 0, next+1) // X2 directory d0
 		open(aD0F1, 5, 0, 0, next+2) // X3 regular file d0/f1
@@ -431,27 +543,33 @@ func (r *runner) instantiate() error {
 	case stRenum:
 		must("fd_renumber", next, 9+next-4)
 		must("fd_renumber", next+2, 12)
+		delete(openSet, next)
+		delete(openSet, next+2)
+		openSet[9+next-4], openSet[12] = true, true
 	case stClosed:
-		must("fd_close", next+1)
-		must("fd_close", 1)
+		closeFd(next + 1)
+		closeFd(1)
 	case stClosedPre:
-		must("fd_close", 3)
+		closeFd(3)
 	case stNoStdin:
-		must("fd_close", 0)
+		closeFd(0)
 	case stNoStdout:
-		must("fd_close", 1)
+		closeFd(1)
 	case stNoStderr:
-		must("fd_close", 2)
+		closeFd(2)
 	case stNoStdio:
-		must("fd_close", 0)
-		must("fd_close", 1)
-		must("fd_close", 2)
+		closeFd(0)
+		closeFd(1)
+		closeFd(2)
 	case stStdinMoved:
-		if errno := in.wcall("fd_renumber", 0, 9+next-4); errno != 0 && errno != 58 { // ENOTSUP: pre-opens cannot be renumbered
+		if errno := in.wcall("fd_renumber", 0, 9+next-4); errno == 0 {
+			delete(openSet, 0)
+			openSet[9+next-4] = true
+		} else if errno != 58 { // ENOTSUP: pre-opens cannot be renumbered
 			problems = append(problems, "fd_renumber(0,9)="+wasip1.ErrnoName(errno))
 		}
 	case stStdinReplaced:
-		must("fd_close", 0)
+		closeFd(0)
 		open(aF0, 2, 0, 0, 0)
 	}
 	if cs.Mount == mtSock {
@@ -479,6 +597,7 @@ func (r *runner) instantiate() error {
 				for try := 0; try < 10000 && !ok; try++ {
 					if errno := in.wcall("sock_accept", 4, 4, aScratch); errno == 0 {
 						ok = true
+						handedOut("sock_accept", []uint64{4, 4, aScratch}, uint64(in.u32(aScratch)))
 					} else if errno != 6 { // EAGAIN
 						break
 					} else {
@@ -495,7 +614,11 @@ func (r *runner) instantiate() error {
 		r.res.Setup = fmt.Sprintf("%s/%s: %s", stateNames[cs.State], mountNames[cs.Mount], strings.Join(problems, "; "))
 	}
 	// shadow table from what is actually there
-	for _, fd := range r.scanSet(nil) {
+	var built []int32
+	for fd := range openSet {
+		built = append(built, int32(fd))
+	}
+	for _, fd := range r.scanSet(built, true) {
 		if ok, info := r.probe(fd); ok {
 			if errno := in.wcall("fd_prestat_get", uint64(fd), aScratch); errno == 0 || (fd <= 2 && info.Ftype != 3 && info.Ftype != 4 && info.Ftype != 6) {
 				info.Preopen = true
@@ -509,16 +632,34 @@ func (r *runner) instantiate() error {
 	return nil
 }
 
-// scanSet lists the descriptors every shadow check looks at.
-func (r *runner) scanSet(extra []int32) []int32 {
+// scanSet lists the descriptors a shadow check looks at: 0..15 and the block
+// boundary 63..65 always, every tracked descriptor while the table is small;
+// with many descriptors open (unless full) the windows around the 64/128
+// block boundaries, the descriptors the call named, and a rotating sample of
+// eight tracked ones — every tracked one again at the end of the instance.
+func (r *runner) scanSet(extra []int32, full bool) []int32 {
 	set := map[int32]bool{}
 	for fd := int32(0); fd < 16; fd++ {
 		set[fd] = true
 	}
 	set[63], set[64], set[65] = true, true, true
 	if r.in != nil {
-		for fd := range r.in.shadow {
-			set[fd] = true
+		if full || len(r.in.shadow) <= bigTable {
+			for fd := range r.in.shadow {
+				set[fd] = true
+			}
+		} else {
+			for fd := int32(58); fd <= 70; fd++ {
+				set[fd], set[fd+64] = true, true
+			}
+			tracked := make([]int32, 0, len(r.in.shadow))
+			for fd := range r.in.shadow {
+				tracked = append(tracked, fd)
+			}
+			sort.Slice(tracked, func(i, j int) bool { return tracked[i] < tracked[j] })
+			for k := 0; k < 8; k++ {
+				set[tracked[(r.res.ShadowChecks*8+k)%len(tracked)]] = true
+			}
 		}
 	}
 	for _, fd := range extra {
@@ -588,11 +729,11 @@ func runtimeErrorCause(text string) (kind, frame string) {
 		kind = m[2]
 	}
 	switch {
-	case strings.Contains(kind, "nil pointer"):
+	case strings.Contains(first, "nil pointer"):
 		kind = "nil-dereference"
-	case strings.Contains(kind, "slice bounds"):
+	case strings.Contains(first, "slice bounds"):
 		kind = "slice-bounds-out-of-range"
-	case strings.Contains(kind, "makeslice"):
+	case strings.Contains(first, "makeslice"):
 		kind = "makeslice"
 	}
 	kind = strings.ReplaceAll(strings.TrimSpace(kind), " ", "-")
@@ -611,20 +752,35 @@ func runtimeErrorCause(text string) (kind, frame string) {
 }
 
 func (r *runner) addFinding(sig, detail string, f *fnSpec, args []uint64, extra map[string]any) {
+	call := callSpec{Fn: f.name, Args: append([]uint64(nil), args...)}
+	text := fmtArgs(f, pnames[f.name], args)
+	if r.cur != nil && r.cur.Fn == f.name {
+		call.Patch, call.Note = r.cur.Patch, r.cur.Note
+		if r.cur.Note != "" {
+			text += " with " + r.cur.Note
+		}
+	}
+	var prefix []callSpec
+	if n := len(r.in.hist); n > 1 {
+		prefix = r.in.hist[:n-1]
+	}
+	if f == historyEnd {
+		call, prefix = callSpec{Fn: "sched_yield", Args: []uint64{}}, r.in.hist
+	}
+	r.addFindingAt(sig, detail, call, text, prefix, extra)
+}
+
+// addFindingAt records a finding whose witness is: the case's state, then
+// prefix on one instance, then call.
+func (r *runner) addFindingAt(sig, detail string, call callSpec, text string, prefix []callSpec, extra map[string]any) {
 	for _, x := range r.res.Findings {
 		if x.Sig == sig {
 			return
 		}
 	}
-	fd := finding{Sig: sig, Detail: detail, Call: callSpec{Fn: f.name, Args: append([]uint64(nil), args...)}, Text: fmtArgs(f, pnames[f.name], args), Extra: extra}
-	if r.cur != nil && r.cur.Fn == f.name {
-		fd.Call.Patch, fd.Call.Note = r.cur.Patch, r.cur.Note
-		if r.cur.Note != "" {
-			fd.Text += " with " + r.cur.Note
-		}
-	}
-	if n := len(r.in.hist); n > 1 {
-		fd.Prefix = append([]callSpec(nil), r.in.hist[:n-1]...)
+	fd := finding{Sig: sig, Detail: detail, Call: call, Text: text, Extra: extra}
+	if len(prefix) > 0 {
+		fd.Prefix = append([]callSpec(nil), prefix...)
 	}
 	r.res.Findings = append(r.res.Findings, fd)
 }
@@ -755,7 +911,11 @@ func (r *runner) doCall(f *fnSpec, args []uint64) {
 		case errors.As(err, &re) || (strings.Contains(text, "recovered by wazero") && strings.Contains(text, "runtime error")):
 			outcome = "go-runtime-error"
 			kind, frame := runtimeErrorCause(text)
-			cause := overflowArg(f, args)
+			// a wrapped count explains an index/slice/makeslice error, nothing else
+			cause := ""
+			if strings.Contains(kind, "out-of-range") || kind == "makeslice" {
+				cause = overflowArg(f, args)
+			}
 			if cause == "" {
 				cause = kind + "@" + frame
 			}
@@ -832,7 +992,7 @@ func (r *runner) doCall(f *fnSpec, args []uint64) {
 			res.Setup = "re-instantiate: " + err.Error()
 		}
 	} else {
-		r.shadowCheck(f, args, errno)
+		r.shadowCheck(f, args, errno, false)
 		if big {
 			// do not keep a gigabyte-sized descriptor table around
 			if err := r.instantiate(); err != nil {
@@ -873,7 +1033,7 @@ func fmtIntervals(iv []interval) string {
 
 // shadowCheck updates the shadow table with what the call legitimately did and
 // compares every descriptor with what the guest-visible API reports now.
-func (r *runner) shadowCheck(f *fnSpec, args []uint64, errno uint32) {
+func (r *runner) shadowCheck(f *fnSpec, args []uint64, errno uint32, full bool) {
 	in := r.in
 	res := r.res
 	res.ShadowChecks++
@@ -898,7 +1058,23 @@ func (r *runner) shadowCheck(f *fnSpec, args []uint64, errno uint32) {
 			}
 		}
 	}
-	for _, fd := range r.scanSet(extra) {
+	if f.mutating && !full && len(in.shadow) > bigTable {
+		// only a window of a big table is probed after this call: the other
+		// descriptors of the files it may have changed are re-baselined when
+		// they are probed next
+		for fd, e := range in.shadow {
+			if e.Ftype == 4 {
+				e.stale = true
+				in.shadow[fd] = e
+			}
+		}
+	}
+	for i, ro := range f.roles {
+		if v := uint32(args[i]); (ro.k == kFd || ro.k == kFdTo) && v < 1<<16 {
+			extra = append(extra, int32(v)) // the descriptors the call named
+		}
+	}
+	for _, fd := range r.scanSet(extra, full) {
 		want, tracked := in.shadow[fd]
 		present, got := r.probe(fd)
 		symptom := ""
@@ -921,7 +1097,7 @@ func (r *runner) shadowCheck(f *fnSpec, args []uint64, errno uint32) {
 			symptom = "filetype-changed"
 		case got.Dev != want.Dev || got.Ino != want.Ino:
 			symptom = "refers-to-another-file"
-		case got.Ftype == 4 && !f.mutating && (got.Size != want.Size || got.Head != want.Head):
+		case got.Ftype == 4 && !f.mutating && !want.stale && (got.Size != want.Size || got.Head != want.Head):
 			symptom = "content-changed"
 		}
 		if symptom == "" {
@@ -936,7 +1112,7 @@ func (r *runner) shadowCheck(f *fnSpec, args []uint64, errno uint32) {
 			cls = got.class(fd)
 		}
 		sig := fmt.Sprintf("%s:fdtable:%s-%s", f.name, cls, symptom)
-		if sameFd && fd == int32(args[0]) {
+		if sameFd && len(args) > 0 && fd == int32(args[0]) {
 			sig = "fd_renumber:same-fd:closes-file"
 		}
 		r.addFinding(sig, fmt.Sprintf("after %s (errno %d) descriptor %d: shadow table says %+v (tracked=%v), the guest-visible API says %+v (present=%v); state %s, mount %s",
@@ -1012,9 +1188,7 @@ func runCase(cs *caseSpec) *caseResult {
 		c := calls[len(calls)/2]
 		res.Sample = fmtArgs(tableByName[c.Fn], pnames[c.Fn], c.Args)
 	}
-	if r.in != nil {
-		r.in.close()
-	}
+	r.endInstance()
 	return res
 }
 
